@@ -92,9 +92,12 @@ impl Shared {
         }
     }
     pub fn push_to_client(&mut self, b: &[u8]) {
-        self.to_client.extend(b.iter().copied());
+        // harness bookkeeping, whoever calls it
+        crate::alloc::exempt(|| {
+            self.to_client.extend(b.iter().copied());
+            self.trace.push(Ev::SW(b.len()));
+        });
         self.total_to_client += b.len();
-        self.trace.push(Ev::SW(b.len()));
     }
     /// bytes written by the client that the peer has not consumed yet
     pub fn pending_from_client(&self) -> &[u8] {
@@ -225,7 +228,7 @@ impl Write for MemLink {
                 }
             }
         }
-        sh.from_client.extend_from_slice(&buf[..n]);
+        crate::alloc::exempt(|| sh.from_client.extend_from_slice(&buf[..n]));
         crate::alloc::exempt(|| sh.trace.push(Ev::CW(n, off)));
         if n > 0 {
             crate::alloc::exempt(|| self.peer.borrow_mut().pump(&mut sh, false));
